@@ -211,12 +211,20 @@ K0_EXEMPT = {"omerc": "kc enters through the constants A and B of the oblique fo
 _ARITH = ("Add", "Sub", "Mul", "Div")
 
 
-def _k0_atom(symtab, inputs=None):
+def _k0_atom(symtab, inputs=None, f=None):
     inputs = inputs or {}
 
     def atom(t):
         if t in inputs:
             return inputs[t]
+        if f is not None and t[0] == "proj":
+            # a parameter handed back by a local helper (`let Setup { k_0, .. } = Setup::new(op)`)
+            import elems as E
+            t2 = E.look_through_calls(f, t)
+            if t2 is not t and t2 != t:
+                t = mir.strip_refs(t2)
+                if t in inputs:
+                    return inputs[t]
         if _fnum(t) is not None:
             return None
         if t[0] == "cast" or (t[0] == "un" and t[1] == "Neg") or (t[0] == "bin" and t[1] in _ARITH):
@@ -289,14 +297,17 @@ def r_k0_linear(cx):
         f = cx.f.fn(c.fwd)
         if (c.fwd, c.inv) in done:
             continue
-        if not any((f.callee(t) or "").endswith("ParsedParameters::k") for bb, t in f.calls()):
+        mod = c.fwd.rsplit("::", 1)[0] + "::"
+        readers = [f] + [cx.f.fn(x) for x in reg.reachable_from([c.fwd], follow_virtual=False)
+                         if x.startswith(mod) and x != c.fwd and cx.f.has_fn(x)]
+        if not any((h.callee(t) or "").endswith("ParsedParameters::k") for h in readers for bb, t in h.calls()):
             continue
         done.add((c.fwd, c.inv))
         for pt in pertuple.per_tuple_loops(f):
             for wn, (bb, e, nn) in enumerate(written_xy_terms(f, pt)):
                 for axis, term, off in (("x", e, "X0"), ("y", nn, "Y0")):
                     symtab = {}
-                    r = _rf(term, _k0_atom(symtab))
+                    r = _rf(term, _k0_atom(symtab, None, f))
                     n += 1
                     why = None
                     if r is None:
@@ -337,7 +348,7 @@ def r_k0_linear(cx):
                     except TypeError:
                         return
                     symtab = {}
-                    r = _rf(t, _k0_atom(symtab, inputs)) if t not in inputs else None
+                    r = _rf(t, _k0_atom(symtab, inputs, g)) if t not in inputs else None
                     if r is not None and any(_has_sym(p, s) for p in r for s in ("XIN", "YIN")):
                         found.append((t, r))
                         for s, (nm, tt) in symtab.items():
